@@ -1,0 +1,20 @@
+// Copyright 2025 The Go Authors. All rights reserved.
+// Use of this source code is governed by a BSD-style
+// license that can be found in the LICENSE file.
+
+//go:build verif
+
+package acme
+
+// verifPickNonce returns the smallest nonce of the pool, so that which nonce
+// a request uses does not depend on the order of map iteration (simulation
+// runs have to be repeatable).
+func verifPickNonce(nonces map[string]struct{}) string {
+	best, have := "", false
+	for n := range nonces {
+		if !have || n < best {
+			best, have = n, true
+		}
+	}
+	return best
+}
